@@ -275,7 +275,15 @@ def gen_pair(rng, family, repo, ta=None, tb=None, thorough=False, shipped=None):
             nz = rng.randint(2, 8)
             dz = rnd_sizes(rng, nz, 0.5 * (ztop + up - zbot) / nz, 1.5 * (ztop + up - zbot) / nz)
             b['ops'].append(['copy_layers', dz, ztop + up])
+            if not columns_keep_a_block(build_geo(b, repo)):        # the new structure must reach below the ground
+                b['ops'][-1] = ['copy_layers', [(ztop + up - zbot) / nz] * nz, ztop + up]
             if rng.random() < 0.3: b = surface_op(rng, b, repo, frac=0.4, snap=0.3)
+            if rng.random() < 0.6:
+                # ... paired with a geometry that fills the taller structure up to its top (blocks above b's ground)
+                cdz = b['ops'][[o[0] for o in b['ops']].index('copy_layers')][1]
+                a = copy.deepcopy(a); a['base']['rect'] = [a['base']['rect'][0], a['base']['rect'][1], list(cdz)]
+                o = list(a['base'].get('origin') or [0., 0., 0.]); o[2] = ztop + up; a['base']['origin'] = o
+                if rng.random() < 0.5: a = surface_op(rng, a, repo, frac=0.5, snap=0.0)
         if rng.random() < 0.5:
             a, b = b, a; a['base']['atmos_type'] = ta; b['base']['atmos_type'] = tb
     elif family == 'shift':
